@@ -118,14 +118,12 @@ extern "C" int masa_purge_default_param()
 
 extern "C" int masa_init_param()
 {
-  masa_init_param<double>();
-  return 0;
+  return masa_init_param<double>();
 }
 
 extern "C" int masa_sanity_check()
 {
-  masa_sanity_check<double>();
-  return 0;
+  return masa_sanity_check<double>();
 }
 
 extern "C" int masa_display_param()
@@ -150,7 +148,7 @@ extern "C" int masa_get_array(const char* param,int *n,double* array)
 {
   // grab vector
   std::vector<double> vec;
-  masa_get_vec<double>(param,vec);
+  int err = masa_get_vec<double>(param,vec);
 
   // copy size to 'n'
   (*n) = int(vec.size());
@@ -161,7 +159,7 @@ extern "C" int masa_get_array(const char* param,int *n,double* array)
     array[i]=vec[i];
   }
 
-  return 0;
+  return err;
 }
 
 extern "C" void masa_set_param(const char* param,double val)
